@@ -371,7 +371,7 @@ def judge_trace(ctx, spec, tracefile, workers=8, cfg=None, slim=None, timeout=18
     return r, cases
 
 
-def judge_shards(ctx, spec, shard_files, label=None, timeout=1800, slim=None):
+def judge_shards(ctx, spec, shard_files, label=None, timeout=1800, slim=None, cfg=None):
     """Trace validation that needs -workers 1 (TLC registers): one TLC process per shard, concurrently."""
     from concurrent.futures import ThreadPoolExecutor
     shard_files = [f for f in shard_files if os.path.exists(f) and os.path.getsize(f) > 0]
@@ -379,7 +379,7 @@ def judge_shards(ctx, spec, shard_files, label=None, timeout=1800, slim=None):
 
     def one(args):
         n, path = args
-        return tlc(spec, workers=1, tracefile=path, timeout=timeout, deque=True, cont=False, name="%s-%d" % (label or spec, n), xmx="4g")
+        return tlc(spec, cfg=cfg, workers=1, tracefile=path, timeout=timeout, deque=True, cont=False, name="%s-%d" % (label or spec, n), xmx="4g")
 
     with ThreadPoolExecutor(max_workers=8) as ex:
         results = list(ex.map(one, enumerate(shard_files)))
